@@ -25,9 +25,9 @@ MOD_CONFIGS = [None, None, None,
 
 
 def base_cfg(r, mod="rand"):
-    cfg = {"domain": "localhost", "max_clients": r.choice([2, 3, 10]), "max_subs": r.choice([1, 2, 10]),
+    cfg = {"domain": "localhost", "max_clients": r.choice([2, 3, 10]), "max_subs": r.choice([2, 3, 10]),
            "max_payload": r.choice([256, 1024]), "max_inflight": r.choice([1, 3, 10]), "max_message": 1024,
-           "keepalive_ms": 3600000, "min_keepalive_ms": 1000, "max_conns": r.choice([3, 16, 16]), "budget": 1 << 22,
+           "keepalive_ms": 3600000, "min_keepalive_ms": 1000, "max_conns": r.choice([4, 16, 16, 16]), "budget": 1 << 22,
            "mod": r.choice(MOD_CONFIGS) if mod == "rand" else mod}
     return cfg
 
@@ -109,6 +109,7 @@ class Gen:
         self.next_k = 1
         self.next_id = 1
         self.conns = {}      # k -> {"phase": 0/1/2, "user": str|None}
+        self.joined = {}     # user -> set of channels (optimistic shadow)
         self.auth = bool(cfg["mod"]) and "auth" in cfg["mod"]["ops"]
 
     def rid(self):
@@ -173,8 +174,11 @@ class Gen:
     def authed(self):
         return [k for k, c in self.conns.items() if c["phase"] == 2]
 
-    def chan(self):
+    def chan(self, k=None, member=False):
         r = self.r
+        mine = sorted(self.joined.get(self.conns.get(k, {}).get("user"), set())) if k is not None else []
+        if member and mine and r.random() < 0.85:
+            return r.choice(mine)
         return r.choice(CHANNELS) if r.random() < 0.93 else r.choice(ODD_CHANNELS)
 
     def nid(self):
@@ -198,33 +202,40 @@ class Gen:
         i = self.rid()
         if x < 0.22:
             ob = self.nid() if r.random() < 0.2 else None
-            self.send(k, frame("JOIN", [("id", i), ("channel", self.chan()), ("on_behalf", ob)]))
+            ch = self.chan()
+            self.send(k, frame("JOIN", [("id", i), ("channel", ch), ("on_behalf", ob)]))
+            who = (ob.split("@")[0] if ob else self.conns[k].get("user")) if k in self.conns else None
+            if who and ch in CHANNELS:
+                self.joined.setdefault(who, set()).add(ch)
         elif x < 0.34:
             ob = self.nid() if r.random() < 0.2 else None
-            self.send(k, frame("LEAVE", [("id", i), ("channel", self.chan()), ("on_behalf", ob)]))
+            ch = self.chan(k, member=True)
+            self.send(k, frame("LEAVE", [("id", i), ("channel", ch), ("on_behalf", ob)]))
+            if not ob and k in self.conns:
+                self.joined.get(self.conns[k].get("user"), set()).discard(ch)
         elif x < 0.52:
             pl = rand_payload(r, self.cfg)
             qos = r.choice([None, None, 0, 1])
             ln = len(pl)
-            self.send(k, frame("BROADCAST", [("id", i), ("channel", self.chan()), ("length", ln), ("qos", qos)], pl))
+            self.send(k, frame("BROADCAST", [("id", i), ("channel", self.chan(k, member=True)), ("length", ln), ("qos", qos)], pl))
         elif x < 0.60:
             p, s = self.page_args()
             self.send(k, frame("CHANNELS", [("id", i), ("page", p), ("page_size", s), ("owner", r.random() < 0.3)]))
         elif x < 0.68:
             p, s = self.page_args()
-            self.send(k, frame("MEMBERS", [("id", i), ("channel", self.chan()), ("page", p), ("page_size", s)]))
+            self.send(k, frame("MEMBERS", [("id", i), ("channel", self.chan(k, member=True)), ("page", p), ("page_size", s)]))
         elif x < 0.76:
             nids = [self.nid() for _ in range(r.choice([0, 1, 1, 2, 3]))]
-            self.send(k, frame("SET_CHAN_ACL", [("id", i), ("channel", self.chan()), ("type", r.choice(["join", "publish", "read"])),
+            self.send(k, frame("SET_CHAN_ACL", [("id", i), ("channel", self.chan(k, member=True)), ("type", r.choice(["join", "publish", "read"])),
                                                 ("action", r.choice(["add", "add", "remove"])), ("nids", nids)]))
         elif x < 0.82:
             p, s = self.page_args()
-            self.send(k, frame("GET_CHAN_ACL", [("id", i), ("channel", self.chan()), ("type", r.choice(["join", "publish", "read"])),
+            self.send(k, frame("GET_CHAN_ACL", [("id", i), ("channel", self.chan(k, member=True)), ("type", r.choice(["join", "publish", "read"])),
                                                 ("page", p), ("page_size", s)]))
         elif x < 0.86:
-            self.send(k, frame("GET_CHAN_CONFIG", [("id", i), ("channel", self.chan())]))
+            self.send(k, frame("GET_CHAN_CONFIG", [("id", i), ("channel", self.chan(k, member=True))]))
         elif x < 0.91:
-            self.send(k, frame("SET_CHAN_CONFIG", [("id", i), ("channel", self.chan()), ("max_clients", r.choice([0, 1, 2, 3, 10, 11])),
+            self.send(k, frame("SET_CHAN_CONFIG", [("id", i), ("channel", self.chan(k, member=True)), ("max_clients", r.choice([0, 1, 2, 3, 10, 11])),
                                                    ("max_payload_size", r.choice([0, 1, 16, 256, 1024, 1025]))]))
         elif x < 0.95:
             pl = rand_payload(r, self.cfg)
@@ -245,7 +256,10 @@ class Gen:
             return
         k = self.r.choice(list(self.conns))
         self.ops.append({"t": "hangup", "k": k, "script": rand_script(self.r, self.cfg)})
+        u = self.conns[k].get("user")
         del self.conns[k]
+        if u and not any(c.get("user") == u for c in self.conns.values()):
+            self.joined.pop(u, None)
 
     def direct(self):
         r = self.r
@@ -257,6 +271,15 @@ class Gen:
         r = self.r
         for _ in range(r.randint(2, 4)):
             self.open_conn()
+        # warm-up: most identified users join a channel or two, so later requests have something to act on
+        for k in list(self.authed()):
+            for _ in range(r.choice([0, 1, 1, 2])):
+                ch = r.choice(CHANNELS[:2])
+                self.send(k, frame("JOIN", [("id", self.rid()), ("channel", ch)]))
+                u = self.conns[k].get("user")
+                if u:
+                    self.joined.setdefault(u, set()).add(ch)
+        n += len(self.ops)
         while len(self.ops) < n:
             x = r.random()
             if x < 0.10 and len(self.conns) < 6:
